@@ -127,6 +127,7 @@ func gVote(c *Check) {
 				}
 			}
 			c.Result(ok, rule+".restart", "store raft.Vote = state.GetVote()", fnName(st.Fn), site, "vote is reloaded from the persisted HardState only at start-up (loadState <- newRaft)", "")
+			loadStateComplete(c, rule+".restart")
 		default:
 			c.Bad(rule+".writers", "store raft.Vote", fnName(st.Fn), site, "Vote is written only as None (term change), r.id (candidacy), m.From (grant) or from the HardState", "value "+v.Key())
 		}
